@@ -724,6 +724,17 @@ def s5_compare(case):
             return 'diff', 'include flag of %s: impl %s model %s' % (f['id'], f['inc'], w[0])
         if f['inc'] == '1' and (f['drm'], f['urm'], f['brm']) != (w[1], w[2], w[3]):
             return 'diff', 'rmaps of %s: impl %s model %s' % (f['id'], (f['drm'], f['urm'], f['brm']), w[1:4])
+    # the dependency relation after the final flow computation (who uses whom, in the order recorded)
+    m5u = next((l for l in case.mlines if l.startswith('m5u ')), None)
+    if m5u is not None and fs and 'uses' in fs[0]:
+        wantu = {}
+        for tok in m5u.split()[1:]:
+            i, us, ub = tok.split(':')
+            wantu[i] = (us, ub)
+        for f in fs:
+            if f['id'] in wantu and (f['uses'], f['usedby']) != wantu[f['id']]:
+                return 'diff', 'dependency lists of %s: impl uses=%s usedby=%s model uses=%s usedby=%s' % (
+                    (f['id'], f['uses'], f['usedby']) + wantu[f['id']])
     return 'same', ''
 
 
